@@ -372,6 +372,17 @@ func NewInterp() *Interp {
 		if len(args) > 1 {
 			b.BoundArgs = append([]Value(nil), args[1:]...)
 		}
+		if in.Flags&AltBoundCallSharesArguments != 0 && len(args) > 0 {
+			// the bound list is the tail of an argument list grown by append: its
+			// capacity is the next power of two >= len(args)
+			c := 1
+			for c < len(args) {
+				c *= 2
+			}
+			full := make([]Value, len(args), c)
+			copy(full, args)
+			b.BoundArgs = full[1:]
+		}
 		l := 0.0
 		if t.Class == "Function" {
 			l = ToNumber(in, t.Get(in, "length")) - float64(len(b.BoundArgs))
@@ -617,6 +628,31 @@ func NewInterp() *Interp {
 	for _, n := range []string{"EvalError", "RangeError", "ReferenceError", "SyntaxError", "TypeError", "URIError"} {
 		mkErr(n, in.ErrorProto)
 	}
+
+	// ---- 15.8.2.11/12 Math.max, Math.min (every argument is converted, in order)
+	mathObj := newObj("Math", in.ObjectProto)
+	def("Math", mathObj)
+	extreme := func(name string, start float64, better func(a, b float64) bool) {
+		in.method(mathObj, name, 2, func(in *Interp, this Value, args []Value) Value {
+			r := start
+			nan := false
+			for i := range args {
+				n := ToNumber(in, args[i])
+				switch {
+				case math.IsNaN(n):
+					nan = true
+				case better(n, r) || (n == 0 && r == 0 && better(1/n, 1/r)):
+					r = n
+				}
+			}
+			if nan {
+				return math.NaN()
+			}
+			return r
+		})
+	}
+	extreme("max", math.Inf(-1), func(a, b float64) bool { return a > b })
+	extreme("min", math.Inf(1), func(a, b float64) bool { return a < b })
 
 	// ---- 15.1.2.1 eval, host functions
 	in.EvalFn = in.native("eval", 1, func(in *Interp, this Value, args []Value) Value {
